@@ -11,7 +11,7 @@ for d in sorted(glob.glob(f"/verif/seeded/{pid}-m*")):
     try:
         m = json.load(open(d + "/meta.json"))
         t = m["needs_to_manifest"]
-        for cut in [". Not reached", "; deterministic", ": missed", ": deterministic", " (missed", "; missed", ": only visible", "; only visible", ": detected", "; detected"]:
+        for cut in [" — missed", " - missed", "; detected by", ". Not reached", "; deterministic", ": missed", ": deterministic", " (missed", "; missed", ": only visible", "; only visible", ": detected", "; detected"]:
             t = t.split(cut)[0]
         avoid.append(t)
     except Exception: pass
